@@ -5,6 +5,7 @@
 -/
 import Dirk.Props.C07
 import Dirk.Lemmas.PermsRefine
+import Dirk.Props.KernelsEq
 
 namespace Dirk
 
@@ -28,5 +29,14 @@ theorem C07_served_has_bearing (perms : Perms) (acc : Access) (client account op
     ∃ w a es e item, walletAndAccount account = some (w, a) ∧ perms.lookup client = some es ∧
       e ∈ es ∧ Spec.entryMatches e w a = true ∧ item ∈ e.ops ∧ Spec.bearing op item ≠ none :=
   check_true_has_bearing perms acc client account op hc hs ht
+
+/-- **tie by translation.** `regexify`, the guard prefix of `Check` and its two loops are, for all inputs, the
+    functions `factx` translates on every run from the current Go source of services/checker/static
+    (parameters.go `regexify`, service.go `Check`); regular-expression matching itself enters only as the Boolean
+    "both of this entry's expressions matched". -/
+theorem C07_kernel_is_source (acc : Access) (client account op name : String) :
+    regexify name = Gen.regexifyGen name ∧
+    check acc client account op = checkWrap false acc client account op :=
+  ⟨regexify_eq_gen name, check_eq_gen acc client account op⟩
 
 end Dirk
